@@ -7,7 +7,10 @@
    cases to measure which SPtrans / skb / con_salt / cov_2char entries were indexed.
    Results that alias shared state / reentrancy (sessions(), driver ops 5 and 6 in c02_session.go): sessions of calls in
    one process whose returned slices are kept uncopied, handed back in as the stored hash and read after the last call,
-   and the same calls from concurrent goroutines; model counterpart C02_calls_independent / C02_order_independent."""
+   and the same calls from concurrent goroutines; model counterpart C02_calls_independent / C02_order_independent.
+   The password as the server's entry points hand it on (accounts(), driver ops 7 and 8 in c02_accounts.go): histories of
+   Register / Login / CheckPasswd / ChangePasswd through bbs.* and the gin handlers with passwords that have bytes >= 0x80,
+   stored hashes read from .PASSWDS and compared with libcrypt; model counterpart C02_accounts_*."""
 import ctypes, ctypes.util, os, re, subprocess, sys
 from concurrent.futures import ThreadPoolExecutor
 sys.path.insert(0, os.path.join(os.path.dirname(os.path.abspath(__file__)), "..", "lib"))
@@ -575,6 +578,421 @@ def sessions(c, rng, impl, model, thorough):
             "concurrent_calls": n_conc_calls, "race_detector": race, "GOMAXPROCS": os.cpu_count()}
 
 
+# ---------------------------------------------------------------------------------------------- accounts (ops 7, 8)
+ACCT_N = 3
+ACCT_NAMES = {1: "Register", 2: "Login", 3: "CheckPasswd", 4: "ChangePasswd", 5: "CheckPasswd",
+              11: "POST /register", 12: "POST /token", 13: "POST /user/:uid/attemptchangeemail", 14: "POST /user/:uid/changepasswd",
+              15: "POST /user/:uid/attemptsetidemail"}
+
+
+def is_utf8(bs):
+    try:
+        bytes(bs).decode("utf-8")
+        return True
+    except UnicodeDecodeError:
+        return False
+
+
+def real_pw(p):
+    return p is not None and len(p) > 0 and p[0] != 0
+
+
+def pw_match(p, q):
+    """does the account whose password is p (None: no account) open for q — crypt(3): same key, and GenPasswd's empty hash opens for nothing"""
+    return 1 if real_pw(p) and key_of(q) == key_of(p) else 0
+
+
+def accounts(c, rng, impl, model, thorough):
+    """The password as the server's entry points hand it on. Every other part of this check calls crypt.Fcrypt / cmbbs.GenPasswd /
+    cmbbs.CheckPasswd itself; here the password enters where a client's does: bbs.Register / bbs.Login / bbs.CheckPasswd /
+    bbs.ChangePasswd and the gin handlers in front of them (driver ops 7 and 8, c02_accounts.go), in HISTORIES — set a password
+    through one entry point, use it through the others — with passwords that have bytes >= 0x80 (utf8 of every length, raw bytes
+    at the bbs layer), blanks, both cases, more than 8 bytes. Direct predicates (no model involved), with the reference kept here
+    (the password each account has, by the property text): the stored hash read out of .PASSWDS after an accepted Register /
+    ChangePasswd is libcrypt's crypt(3) of the very bytes given (and crypt.Fcrypt of them, made alone); the password that was
+    set is accepted by every entry point and one differing in the low 7 bits of its first 8 bytes is refused; the stored hash
+    verifies exactly those probe passwords that have the key of the password set (op 8, no salt in the answer: replayable);
+    nothing but an accepted Register / ChangePasswd of an account changes its hash. Model: C02_accounts_*."""
+    K = 10 if thorough else 1
+    ASCII = list(b"abcdefghijklmnopqrstuvwxyzABCDEFGHIJKLMNOPQRSTUVWXYZ0123456789")
+    POOLS = ["密碼測試中文字號帳戶", "äöüßéñçÅÀ", "парольключ", "ぱすわーどパス", "😀🔑🐱", " \u0080ÿ☃￥　€", "한글비번"]
+
+    def rnd_char():
+        while True:
+            r = rng.random()
+            cp = rng.randrange(0x80, 0x800) if r < 0.3 else rng.randrange(0x800, 0x10000) if r < 0.8 else rng.randrange(0x10000, 0x110000)
+            if not 0xd800 <= cp <= 0xdfff:
+                return chr(cp)
+
+    def utf8_pw():
+        """valid utf8 with at least one byte >= 0x80 among the first 8"""
+        while True:
+            chars = []
+            for _ in range(rng.randrange(1, 8)):
+                r = rng.random()
+                if r < 0.35:
+                    chars.append(chr(rng.choice(ASCII + list(b" .-_!@#"))))
+                elif r < 0.85:
+                    chars.append(rng.choice(rng.choice(POOLS)))
+                else:
+                    chars.append(rnd_char())
+            p = list("".join(chars).encode("utf-8"))
+            if any(b >= 0x80 for b in p[:8]):
+                return p
+
+    def ascii_pw():
+        r = rng.random()
+        n = rng.randrange(1, 9) if r < 0.6 else rng.randrange(9, 16)
+        p = [rng.choice(ASCII) for _ in range(n)]
+        if r > 0.8:
+            p[rng.randrange(len(p))] = 32
+        if r > 0.93:
+            p = [32] + p + [32]
+        return p
+
+    def raw_pw():
+        """any bytes (what a Go string can hold): only the bbs layer can be given these"""
+        r = rng.random()
+        if r < 0.5:
+            return [rng.randrange(1, 256) for _ in range(rng.randrange(1, 13))]
+        if r < 0.7:
+            return rng.choice([[0x80], [0x80, 0x61], [0xff, 0xfd], [0xb1, 0x4b, 0xbd, 0x58, 0x61], [0xc3], [0xe5, 0xaf], [0xa4, 0xa4, 0xa4, 0xe5]]) + [rng.choice(ASCII) for _ in range(rng.randrange(0, 4))]
+        p = utf8_pw()
+        p[rng.randrange(len(p))] ^= 0x80
+        return p if p[0] else [0x41] + p
+
+    def some_pw(api_ok=False):
+        r = rng.random()
+        if r < 0.62:
+            return utf8_pw()
+        if r < 0.8 or api_ok:
+            return ascii_pw()
+        return raw_pw()
+
+    def wrong_of(p):
+        """differs from p in the low 7 bits of the first 8 bytes of the C string; utf8 again if p is (so that it can go through the api)"""
+        e = eff_len(p)
+        if e == 0:
+            return [rng.choice(ASCII)]
+        for attempt in range(60):
+            q = list(p)
+            q[rng.randrange(e)] ^= 1 << rng.randrange(7)
+            if q[0] != 0 and (attempt >= 50 or not is_utf8(p) or (is_utf8(q) and 0 not in q)):
+                return q
+        return [p[0] ^ 1] + list(p[1:])
+
+    def twins(p):
+        """byte strings a layer that 'helpfully' converts the password would use instead; which of them must open the account is
+        decided by the crypt(3) key alone (pw_match)"""
+        out = [wrong_of(p), [b & 0x7f if b & 0x7f else b for b in p]]
+        if is_utf8(p):
+            t = bytes(p).decode("utf-8")
+            big5 = b""
+            for ch in t:
+                if ord(ch) < 0x80:
+                    big5 += ch.encode()
+                else:
+                    try:
+                        big5 += ch.encode("big5")
+                    except UnicodeEncodeError:
+                        big5 += b"\xff\xfd"
+            out += [list(big5), list(t.encode("latin-1", errors="replace")), list(t.lower().encode()), list(t.upper().encode()), list(t.strip().encode()),
+                    list(t[:max(1, len(t) // 2)].encode())]
+        else:
+            out.append(list(bytes(p).decode("utf-8", errors="replace").encode()))
+        return [q for q in out if q != list(p)]
+
+    def op(k, u, a, b=(), api=None):
+        a, b = list(a), list(b)
+        if api is None:
+            api = rng.random() < 0.5
+        if api and is_utf8(a) and is_utf8(b):
+            k += 10
+        return {"k": k, "u": u, "a": a, "b": b}
+
+    def verify_op(u, q, api=None):
+        return op(rng.choice([2, 3, 5]), u, q, api=api)
+
+    def initial(api_ok=False):
+        """the hash account 0 starts with: made by libcrypt (an existing .PASSWDS), of a password the check knows"""
+        if _lib is not None:
+            for _ in range(20):
+                p0 = some_pw(api_ok)
+                st = libcrypt(p0, [rng.choice(ALPHA), rng.choice(ALPHA)])
+                if st is not None and real_pw(p0):
+                    return p0, list(st) + [0]
+        return list(b"123123"), list(b"bhwvOJtfT1TAI\0")
+
+    hist = []                    # (pattern, p0, h0, ops)
+
+    def add(pattern, p0h0, ops):
+        hist.append((pattern, p0h0[0], p0h0[1], ops))
+
+    SETTERS = [(4, False), (4, True), (1, False), (1, True)]
+    for rep in range(4 * K):                                  # every setter x every verifier x (bbs, api), password with high bytes
+        for sk, sapi in SETTERS:
+            for vk in (2, 3, 5, 4):
+                for vapi in (False, True):
+                    i0 = initial(api_ok=True)
+                    p = utf8_pw()
+                    u = 0 if sk == 4 else rng.choice([1, 2])
+                    ops = [op(4, 0, i0[0], p, api=sapi) if sk == 4 else op(1, u, p, api=sapi)]
+                    right = op(vk, u, p, some_pw(api_ok=True), api=vapi) if vk == 4 else op(vk, u, p, api=vapi)
+                    wrong = op(vk, u, wrong_of(p), some_pw(api_ok=True), api=vapi) if vk == 4 else op(vk, u, wrong_of(p), api=vapi)
+                    ops += [wrong, right] if rng.random() < 0.5 else [right, wrong]
+                    add("set-then-verify", i0, ops)
+    for _ in range(40 * K):                                   # an existing hash (libcrypt-made, password with high bytes) through every verifier
+        i0 = initial()
+        ops = [verify_op(0, i0[0]), verify_op(0, wrong_of(i0[0]))]
+        tw = twins(i0[0])
+        ops += [verify_op(0, q) for q in rng.sample(tw, min(2, len(tw)))]
+        rng.shuffle(ops)
+        add("existing-hash", i0, ops)
+    for _ in range(50 * K):                                   # set, then what a converting layer would send instead
+        i0 = initial()
+        p = some_pw()
+        if rng.random() < 0.5:
+            u, ops = 0, [op(4, 0, i0[0], p)]
+        else:
+            u = rng.choice([1, 2])
+            ops = [op(1, u, p)]
+        tw = twins(p)
+        ops += [verify_op(u, q) for q in rng.sample(tw, min(3, len(tw)))] + [verify_op(u, p)]
+        add("set-then-converted-twins", i0, ops)
+    for _ in range(40 * K):                                   # change, change again with the password just set as the old one, use it
+        i0 = initial()
+        p1, p2 = some_pw(), some_pw()
+        ops = [op(4, 0, i0[0], p1), op(4, 0, p1, p2), verify_op(0, p2), verify_op(0, p1), verify_op(0, i0[0])]
+        if rng.random() < 0.5:
+            ops.insert(1, op(4, 0, wrong_of(p1), some_pw()))             # refused: nothing may change
+        add("change-twice", i0, ops)
+    for _ in range(40 * K):                                   # two accounts: what one does must not move the other's hash
+        i0 = initial()
+        p1, p2 = some_pw(), some_pw()
+        ops = [op(1, 1, p1), op(1, 2, p2), verify_op(1, p1), verify_op(2, p2), verify_op(1, p2), op(4, 1, p1, p2), verify_op(2, p2), verify_op(1, p2),
+               verify_op(0, i0[0]), op(1, 1, some_pw())]
+        add("two-accounts", i0, ops)
+    for _ in range(12 * K):                                   # the empty password: registered, but nobody can log in
+        i0 = initial()
+        e = rng.choice([[], [0], [0, 0x41]])
+        ops = [op(1, 1, e), verify_op(1, e), verify_op(1, [0x41]), op(4, 0, i0[0], e), verify_op(0, e), verify_op(0, i0[0])]
+        add("empty-password", i0, ops)
+    for _ in range(80 * K):                                   # anything
+        i0 = initial()
+        pool = [i0[0]] + [some_pw() for _ in range(3)]
+        cur = {0: i0[0], 1: None, 2: None}
+        ops = []
+        for _ in range(rng.randrange(3, 9)):
+            u = rng.randrange(ACCT_N)
+            r = rng.random()
+            known = cur[u] if cur[u] is not None and rng.random() < 0.7 else rng.choice(pool)
+            if r < 0.2:
+                ops.append(op(1, u, rng.choice(pool)))
+                if cur[u] is None and u != 0:
+                    cur[u] = ops[-1]["a"]
+            elif r < 0.6:
+                ops.append(verify_op(u, known if rng.random() < 0.7 else wrong_of(known)))
+            else:
+                ops.append(op(4, u, known, rng.choice(pool)))
+                if pw_match(cur[u], known):
+                    cur[u] = ops[-1]["b"]
+        add("mixed", i0, ops)
+    # the seed of the repository's own tests (SYSOP / 123123) with the passwords of a client that types chinese
+    add("directed", (list(b"123123"), list(b"bhwvOJtfT1TAI\0")),
+        [op(2, 0, b"123123", api=False), op(4, 0, b"123123", "密碼abcd".encode(), api=False), op(2, 0, "密碼abcd".encode(), api=False),
+         op(3, 0, "密碼abcd".encode(), api=False), op(2, 0, [0xb1, 0x4b, 0xbd, 0x58] + list(b"abcd"), api=False), op(4, 0, "密碼abcd".encode(), "pw😀😀".encode(), api=True),
+         op(2, 0, "pw😀😀".encode(), api=True), op(2, 0, "pw🔑🔑".encode(), api=True)])
+
+    def line7(h0, ops, salts=None):
+        return "7|%s|" % toks(h0) + "|".join("%d|%d|%s|%s|%s" % (x["k"], x["u"], toks(x["a"]), toks(x["b"]), toks(salts[i]) if salts else "") for i, x in enumerate(ops))
+
+    def line8(h0, probes, ops):
+        return "8|%s|%d|%s|" % (toks(h0), len(probes), "|".join(toks(q) for q in probes)) + "|".join("%d|%d|%s|%s|" % (x["k"], x["u"], toks(x["a"]), toks(x["b"])) for x in ops)
+
+    # the reference: which password every account has after every operation, and the verdict of every operation
+    refs, l7, l8, exp8, probes_of = [], [], [], [], []
+    for pat, p0, h0, ops in hist:
+        cur = {0: p0, 1: None, 2: None}
+        ref = []
+        for x in ops:
+            k, u = x["k"] % 10, x["u"]
+            if k == 1:
+                v = 1 if cur[u] is None else 0
+                if v:
+                    cur[u] = x["a"]
+            elif k == 4:
+                v = pw_match(cur[u], x["a"])
+                if v:
+                    cur[u] = x["b"]
+            else:
+                v = pw_match(cur[u], x["a"])
+            ref.append((v, dict(cur)))
+        refs.append(ref)
+        probes = []
+        for q in [p0] + [y for x in ops for y in (x["a"], x["b"])]:
+            if q not in probes and len(probes) < 14:
+                probes.append(q)
+        for x in ops:
+            if x["k"] % 10 in (1, 4):
+                for q in twins(x["b"] if x["k"] % 10 == 4 else x["a"])[:3]:
+                    if q not in probes and len(probes) < 24:
+                        probes.append(q)
+        probes_of.append(probes)
+        l7.append(line7(h0, ops))
+        l8.append(line8(h0, probes, ops))
+        e = ["0"]
+        for v, cu in ref:
+            e.append(str(v))
+            for u in range(ACCT_N):
+                e += ["0"] if cu[u] is None else ["1"] + [str(pw_match(cu[u], q)) for q in probes]
+        exp8.append(" ".join(e))
+
+    def run_chunks(lines):
+        jobs = 4
+        n = (len(lines) + jobs - 1) // jobs
+        chunks = [lines[i:i + n] for i in range(0, len(lines), n)]
+        with ThreadPoolExecutor(max_workers=jobs) as ex:
+            parts = list(ex.map(lambda ch: vf.run_impl(impl, "C02", ch, deadline_ms=60000), chunks))
+        return [x for p in parts for x in p]
+
+    o78 = run_chunks(l7 + l8)
+    o7, o8 = o78[:len(l7)], o78[len(l7):]
+    vf.ipc_cleanup()
+    for (pat, _, _, ops) in hist:
+        c.count(1, "account history " + pat)
+        c.count(len(ops), "operations inside account histories")
+
+    def parse7(o, nops):
+        t = o.split()
+        if not t or t[0] != "0":
+            return None
+        v = [int(x) for x in t[1:]]
+        pos, per = 0, []
+        for _ in range(nops):
+            if pos >= len(v):
+                return None
+            verdict, pos = v[pos], pos + 1
+            hs = []
+            for _ in range(ACCT_N):
+                if pos >= len(v) or pos + 1 + v[pos] > len(v):
+                    return None
+                hs.append(v[pos + 1:pos + 1 + v[pos]])
+                pos += 1 + v[pos]
+            per.append((verdict, hs))
+        return per if pos == len(v) else None
+
+    def show(x):
+        k = x["k"] % 10
+        who = "bbs." + ACCT_NAMES[k] if x["k"] < 10 else ACCT_NAMES[x["k"]]
+        if k == 4:
+            return "%s(account %d, old %r, new %r)" % (who, x["u"], bytes(x["a"]), bytes(x["b"]))
+        return "%s(account %d, %r)" % (who, x["u"], bytes(x["a"]))
+
+    l7m, alone_lines, alone_meta = [], [], []
+    n_sets = n_verifies = n_high = 0
+    stats = {}
+    for hi, ((pat, p0, h0, ops), ref, line, o, line_p, o_p, e_p) in enumerate(zip(hist, refs, l7, o7, l8, o8, exp8)):
+        per = parse7(o, len(ops))
+        salts = []
+        for i, x in enumerate(ops):
+            h = per[i][1][x["u"]] if per else []
+            salts.append(h[:2] if x["k"] % 10 in (1, 4) and per and per[i][0] == 1 and len(h) == 14 else [65, 65])
+        l7m.append(line7(h0, ops, salts))
+
+        def rep(**kw):
+            r = {"cases": [line, line_p], "got": [o, o_p], "expected": e_p, "history": [show(x) for x in ops], "pattern": pat,
+                 "note": "the last case is the history with the stored hashes observed through probe passwords (op 8): its whole answer is a function of the case; "
+                         "the first one (op 7) shows the hashes themselves, salts as drawn in that run"}
+            r.update(kw)
+            return r
+        if per is None:
+            c.violation("account-history-crash", "a history of %d account operations does not return one record per operation: status %s" % (len(ops), o.split()[:1]), rep())
+            continue
+        if o_p.split()[:1] != ["0"]:
+            c.violation("account-history-crash", "a history of %d account operations (probed) does not return: %s" % (len(ops), o_p[:40]), rep())
+            continue
+        prev = [h0, [], []]
+        last_set = {0: ("the hash the account had in .PASSWDS (libcrypt's, of %r)" % bytes(p0))}
+        for i, (x, (v, hs), (rv, cu)) in enumerate(zip(ops, per, ref)):
+            k, u = x["k"] % 10, x["u"]
+            where = "operation %d of [%s]" % (i, "; ".join(show(y) for y in ops[:i + 1]))
+            stats[(pat, x["k"])] = stats.get((pat, x["k"]), 0) + 1
+            if any(b >= 0x80 for y in (x["a"], x["b"]) for b in y[:8]):
+                n_high += 1
+            if v != rv:
+                if k == 1:
+                    key, why = "register-verdict", "an id that %s" % ("is free must be registered" if rv else "exists must be refused")
+                elif rv:
+                    key, why = "entry-point-refuses-the-password-that-was-set", "account %d has the password %r (%s): %r has the same crypt(3) key" % (u, bytes(prevpw(ref, i, u, p0)), last_set.get(u, "?"), bytes(x["a"]))
+                else:
+                    cp = prevpw(ref, i, u, p0)
+                    key, why = "entry-point-accepts-a-wrong-password", ("account %d has %s; %r differs from it in the low 7 bits of the first 8 bytes" % (u, "no record" if cp is None else "the password %r (%s)" % (bytes(cp), last_set.get(u, "?")), bytes(x["a"])))
+                c.violation(key, "%s: answered %s, expected %s — %s" % (where, "accepted" if v else "refused", "accepted" if rv else "refused", why), rep(operation=i))
+                break
+            bad = None
+            for w in range(ACCT_N):
+                if w == u and v == 1 and k in (1, 4):
+                    pw = x["a"] if k == 1 else x["b"]
+                    h = hs[w]
+                    n_sets += 1
+                    last_set[u] = "set by %s" % show(x)
+                    if not real_pw(pw):
+                        if h != [0] * 14:
+                            bad = ("stored-hash-is-not-crypt3-of-the-password", "the empty password must store the empty hash, .PASSWDS holds %r" % bytes(h))
+                    elif len(h) != 14 or h[13] != 0 or not all(0 < b < 128 for b in h[:2]):
+                        bad = ("stored-hash-is-not-crypt3-of-the-password", ".PASSWDS holds %r for account %d: not 13 characters + NUL" % (bytes(h), w))
+                    else:
+                        want = libcrypt(pw, h[:2]) if h[0] in ALPHA and h[1] in ALPHA else None
+                        if want is not None and bytes(h[:13]) != want:
+                            bad = ("stored-hash-is-not-crypt3-of-the-password", "after %s .PASSWDS holds %r for account %d; crypt(3) (libcrypt) of the password %r with the salt %r of that hash is %r"
+                                   % (show(x), bytes(h[:13]), w, bytes(pw), bytes(h[:2]), want))
+                        alone_lines.append(case(1, pw, h[:2]))
+                        alone_meta.append((hi, i, h, pw))
+                        c.nontrivial(("acct-set", x["k"], key_of(pw), tuple(h[:2])))
+                elif hs[w] != prev[w]:
+                    bad = ("hash-changed-by-an-operation-that-must-not", "%s on account %d (%s): the stored hash of account %d went from %r to %r"
+                           % (show(x), u, "accepted" if v else "refused", w, bytes(prev[w]), bytes(hs[w])))
+                if bad:
+                    break
+            if bad:
+                c.violation(bad[0], "%s: %s" % (where, bad[1]), rep(operation=i))
+                break
+            prev = hs
+            if k != 1:
+                n_verifies += 1
+                c.nontrivial(("acct-verify", x["k"], v, key_of(x["a"]), tuple(prev[u][:13])))
+        else:
+            if o_p.strip() != e_p:
+                c.violation("stored-hash-verifies-the-wrong-passwords", "history [%s]: asked which of %d probe passwords each stored hash verifies after every operation (cmbbs.CheckPasswd on the hash read from .PASSWDS), "
+                            "the answers differ from the crypt(3) reference (a hash verifies exactly the passwords with the key of the password that was set)" % ("; ".join(show(y) for y in ops), len(probes_of[hi])),
+                            rep(probes=[repr(bytes(q)) for q in probes_of[hi]]))
+    # the same hash made by crypt.Fcrypt alone, from the bytes the entry point was given and the salt found in .PASSWDS
+    if alone_lines:
+        oa = vf.run_impl(impl, "C02", alone_lines)
+        c.count(len(alone_lines), "stored hashes re-made by crypt.Fcrypt alone")
+        for (hi, i, h, pw), al, a in zip(alone_meta, alone_lines, oa):
+            if a != "0 " + toks(h):
+                pat, p0, h0, ops = hist[hi]
+                c.violation("stored-hash-is-not-crypt3-of-the-password", "after %s .PASSWDS holds %r; crypt.Fcrypt of the password %r and the salt of that hash, made alone, is %s"
+                            % (show(ops[i]), bytes(h), bytes(pw), a), {"cases": [l7[hi], l8[hi]], "got": [o7[hi], o8[hi]], "expected": exp8[hi], "alone_case": al, "alone_answer": a, "operation": i})
+    if model:
+        m7 = run_model_par(model, l7m)
+        vf.correspond(c, "histories of Register/Login/CheckPasswd/ChangePasswd through bbs.* and the gin handlers (stored hashes read from .PASSWDS) vs model arun", l7m, o7, m7)
+    c.sample({"op": "account history", "case": l7[-1], "impl": o7[-1], "probed": o8[-1]})
+    by_entry = {}
+    for (pat, k), n in stats.items():
+        by_entry[ACCT_NAMES[k] if k > 10 else "bbs." + ACCT_NAMES[k]] = by_entry.get(ACCT_NAMES[k] if k > 10 else "bbs." + ACCT_NAMES[k], 0) + n
+    return {"histories": len(hist), "operations_by_entry_point": by_entry, "accepted_sets_whose_stored_hash_was_compared_with_libcrypt": n_sets,
+            "verify_operations": n_verifies, "operations_with_a_byte_ge_0x80_in_the_first_8": n_high, "model_lines": l7m}
+
+
+def prevpw(ref, i, u, p0):
+    """the password account u has before operation i"""
+    if i == 0:
+        return p0 if u == 0 else None
+    return ref[i - 1][1][u]
+
+
 def race_run(c, lines):
     """Build the driver with -race and run the session / concurrent cases; a report naming crypt or cmbbs is a violation."""
     import glob, tempfile
@@ -858,9 +1276,13 @@ def main():
     # ------------------------------------------------------------------------------------------ sessions and concurrent callers
     sess_stats = sessions(c, rng, impl, model, thorough)
 
+    # ------------------------------------------------------------------------------------------ the password through the server's entry points
+    acct_stats = accounts(c, rng, impl, model, thorough)
+    l7m = acct_stats.pop("model_lines")
+
     # ------------------------------------------------------------------------------------------ extraction cross-check inside Coq
     if model:
-        pick = [l1[0], l1[1540], l1[3000], l1[len(l1) - 700], l1[2 * 256 * 3 + 4096 + 3], l4[17], l4[len(l4) - 5], l2m[0], l2m[1], l2m[7], l3[0], l3[1], l3[-1], l3[-4]]
+        pick = [l1[0], l1[1540], l1[3000], l1[len(l1) - 700], l1[2 * 256 * 3 + 4096 + 3], l4[17], l4[len(l4) - 5], l2m[0], l2m[1], l2m[7], l3[0], l3[1], l3[-1], l3[-4], l7m[0], l7m[-1]]
         inside = coq_eval_cases(pick)
         outside = vf.run_model(model, pick)
         if inside is None or inside != outside:
@@ -876,13 +1298,17 @@ def main():
                   "changed bytes after the 8th / after a NUL / bit 7 (accept), libcrypt-made hashes (accept). "
                   "Sessions (op 5): 2-6 Fcrypt/GenPasswd/CheckPasswd calls in one process, returned slices kept uncopied and read after the last call, CheckPasswd called on the very slice an earlier call returned (right and wrong password); "
                   "predicates: every kept slice = libcrypt of its own password and salt, session answers = answers of the same calls made alone, verdicts, no argument written to. "
-                  "Concurrent (op 6): 2-4 goroutines repeating Fcrypt/GenPasswd/CheckPasswd against hashes of the same and of different passwords, every answer = the sequential one (thorough: also under go build -race). A case is non-trivial if it has a distinct (DES key, salt) resp. (kind, hash, DES key)",
+                  "Concurrent (op 6): 2-4 goroutines repeating Fcrypt/GenPasswd/CheckPasswd against hashes of the same and of different passwords, every answer = the sequential one (thorough: also under go build -race). "
+                  "Account histories (ops 7, 8): 3-10 operations through bbs.Register / Login / CheckPasswd / ChangePasswd and the gin handlers (/register, /token, /user/:uid/changepasswd, /attemptchangeemail, /attemptsetidemail) on a scratch BBS, account 0 starting with a libcrypt-made hash: "
+                  "every setter x every verifier x (bbs, api) with utf8 passwords that have a byte >= 0x80 in the first 8, existing hashes, the byte strings a converting layer would send (big5 / latin-1 / case-folded / trimmed / truncated / 7-bit twins), change twice, two accounts, the empty password, random histories; raw (non-utf8) bytes at the bbs layer; "
+                  "predicates: stored hash read from .PASSWDS = libcrypt crypt(3) of the bytes given (and = crypt.Fcrypt made alone), verdict of every operation = crypt(3)-key reference, every stored hash verifies exactly the probes with the right key, no other hash moves. A case is non-trivial if it has a distinct (DES key, salt) resp. (kind, hash, DES key)",
              extra={"table_coverage": table_cov, "oracle_comparisons": {"libcrypt_ctypes": n_oracle, "perl_crypt": n_perl, "DesSpec_cases": len(l4)},
-                    "sessions_and_concurrency": sess_stats},
+                    "sessions_and_concurrency": sess_stats, "account_histories": acct_stats},
              assumptions=["the reject clause ('rejected for any password whose first eight bytes differ in the low seven bits') is exercised by differential testing only: proving it would assert that DES under 25 salted iterations has no colliding keys on the zero block, which nobody has proved (C02_reject_partial says what is proved)",
                           "whole-function equality model-of-fcrypt = textbook crypt(3) (Model/C02_DesSpec.v) is a theorem for all passwords and alphabet salts (C02_equals_crypt3); what stays validated, by the 4-way correspondence on every case, is that the model is the Go code (Go <-> extracted model) and that the textbook specification is the crypt(3) of libcrypt / perl (extracted DesSpec <-> oracles)",
                           "libcrypt (libxcrypt's DES crypt) and perl's crypt are validation oracles, not part of any theorem",
                           "C02_calls_independent / C02_order_independent hold of the model by construction (its functions have no state); that crypt.Fcrypt, cmbbs.GenPasswd and cmbbs.CheckPasswd are such functions - no result aliasing a shared buffer, no scratch state shared between goroutines - is validated, not proved: sessions with results kept uncopied (deterministic) and concurrent goroutines (a data race shows with high probability per case, not with certainty; the thorough tier adds the race detector)",
+                          "C02_accounts_* are theorems about the model's account operations (the password bytes go unchanged into GenPasswd / CheckPasswd at every entry point); that bbs.Register / Login / CheckPasswd / ChangePasswd and the five gin handlers ARE those operations is validated by the account histories (ops 7, 8), not proved: ptt.Register / ptt.Login do much besides the password (utmp, home directory, favourites) that the model leaves out; through the api only valid utf8 can travel (a json string), raw bytes are exercised at the bbs layer",
                           "a salt shorter than 2 bytes or with a byte >= 128 is outside the property: Go panics (con_salt has 128 entries), the model says Crash; GenPasswd masks its salt to 7 bits and stored hashes are ASCII"])
 
 
